@@ -4,7 +4,7 @@ FAMILY = "stun"
 RULE = ("datagrams of 0..512 bytes given to the real parse_stun_response in an exact-size heap block under ASan+UBSan: "
         "RFC 5389 responses built by an independent python encoder (MAPPED / XOR-MAPPED, IPv4 / IPv6, preceded by 0..4 "
         "other attributes with lengths 0..40 and every padding), then mutated: truncation at every offset, message-length "
-        "field off by -8..+8 and 0xffff, attribute length overwritten (0,3,4,7,8,19,20,0xffff), wrong type, wrong "
+        "field off by -8..+8 and 0xffff, attribute length overwritten (0,3,4,7,8,19,20,0xffff), wrong type (every single-bit change of 0x0101, both top bits, other classes and methods, random types), wrong "
         "transaction id byte, family byte 0/1/2/3, a header cookie field other than the magic cookie (decoding must not change), "
         "an address attribute whose declared length is 1..7 / 5..19 (too short for its family) followed by padding, by another "
         "attribute or by the end of the datagram (nothing may be decoded from it), plus random bytes. Oracle (independent of the model): for an "
@@ -101,6 +101,13 @@ def generate(rng, tier):
                     bb = b[:start + 4 + v]                                            # datagram ends with the short value
                     add(response(txid3, bb), txid3, "short-addr-attr-tight", expect=[])
                     add(response(txid3, b + tlv(0x8022, [1, 2, 3, 4])), txid3, "short-addr-attr", expect=[])
+        if i < 3:
+            # the type gate: every single-bit change of 0x0101 (the two top bits are not part of class or method), both top
+            # bits, the other class / method values with and without top bits, and a few random 16-bit types
+            for ty in sorted({0x0101 ^ (1 << b) for b in range(16)} | {0xC101, 0x0000, 0xFFFF, 0x0001, 0x0011, 0x0111, 0x4111, 0x8001,
+                                                                      0x0102, 0x0103, 0x1101, 0x2101} | {rng.randrange(65536) for _ in range(6)}):
+                if ty != 0x0101:
+                    add(response(txid, body, ty=ty), txid, "wrongtype", expect=[])
         r = rng.random()
         if r < 0.25:
             for cut in (range(len(data)) if i < 6 else [rng.randrange(len(data)) for _ in range(4)]):
